@@ -1,5 +1,7 @@
-(* C19: executable checks relating the generated model of easter / jewish_pesach /
-   moslem2gregorian / gregorian2moslem to the hand-written calendar specifications. *)
+(* C19: executable checks relating the GENERATED model of Epoch.easter / jewish_pesach /
+   moslem2gregorian / gregorian2moslem / dow (binary64 instance, no libm involved) to the
+   hand-written calendar specifications Spec.Computus, Spec.Hebrew, Spec.Islamic and the
+   independent civil day count Spec.CalSpec.jdn. *)
 From Coq Require Import ZArith NArith List Bool String PrimFloat.
 From PyLib Require Import PyVal PyBuiltins B64 B64Facts Range.
 From Spec Require Import CalSpec Computus Hebrew Islamic.
@@ -9,6 +11,12 @@ Open Scope Z_scope.
 
 Definition fval := val float.
 Definition pair_val (p : Z * Z) : fval := VTuple [VInt (fst p); VInt (snd p)].
+Definition tuple3 (a b c : Z) : fval := VTuple [VInt a; VInt b; VInt c].
+
+(* weekday of the civil date as the implementation computes it: Epoch(y, m, d).dow() *)
+Definition mkEpoch (args : list fval) : fval :=
+  Epoch___init__ B0 (VObj cEpoch [VNone]) (VTuple args) (VDict []).
+Definition dow (y m d : Z) : fval := Epoch_dow B0 (mkEpoch [VInt y; VInt m; VInt d]) (VBool false).
 
 (* ---- Easter ---- *)
 Definition easter (y : Z) : fval := Epoch_easter B0 (VInt y).
@@ -16,20 +24,23 @@ Definition in_easter_window (m d : Z) : bool :=
   ((m =? 3) && (22 <=? d) && (d <=? 31)) || ((m =? 4) && (1 <=? d) && (d <=? 25)).
 Definition chk_easter (y : Z) : bool :=
   val_eqb (easter y) (pair_val (easter_spec y)) &&
-  (let '(m, d) := easter_spec y in in_easter_window m d && (weekday y m d =? 0)).
+  (let '(m, d) := easter_spec y in
+   in_easter_window m d && valid y m d && (weekday y m d =? 0) && val_eqb (dow y m d) (VInt 0)).
 
 (* ---- Pesach ---- *)
 Definition pesach (y : Z) : fval := Epoch_jewish_pesach B0 (VInt y).
+Definition pesach_weekday (w : Z) : bool := (w =? 0) || (w =? 2) || (w =? 4) || (w =? 6).
 Definition chk_pesach (y : Z) : bool :=
   match pesach y with
   | VTuple [VInt m; VInt d] =>
-      valid y m d && (jdn y m d =? pesach_jdn y) &&
-      (let w := weekday y m d in (w =? 0) || (w =? 2) || (w =? 4) || (w =? 6))
+      valid y m d && (jdn y m d =? pesach_jdn y) && pesach_weekday (weekday y m d)
+      && val_eqb (dow y m d) (VInt (weekday y m d))
   | _ => false
   end.
 
 (* ---- Moslem calendar ---- *)
-(* an integer given as int or as an integral float *)
+(* an integer given as int or as an integral float (moslem2gregorian returns the day of a
+   Julian-calendar result as a float, through doy2date) *)
 Definition as_Z (v : fval) : option Z :=
   match v with
   | VInt z => Some z
@@ -39,24 +50,43 @@ Definition as_Z (v : fval) : option Z :=
 
 Definition m2g (h m d : Z) : fval := Epoch_moslem2gregorian B0 (VInt h) (VInt m) (VInt d).
 Definition g2m (y m d : Z) : fval := Epoch_gregorian2moslem B0 (VInt y) (VInt m) (VInt d).
-
-Definition chk_m2g (h m d : Z) : bool :=
-  match m2g h m d with
-  | VTuple [VInt y; VInt mo; dv] =>
-      match as_Z dv with
-      | Some da => valid y mo da && (jdn y mo da =? islamic_jdn h m d)
-      | None => false
-      end
-  | _ => false
+(* gregorian2moslem applied to the tuple returned by moslem2gregorian, as it is *)
+Definition g2m_of (v : fval) : fval :=
+  match v with
+  | VTuple [y; m; d] => Epoch_gregorian2moslem B0 y m d
+  | _ => VErr TypeError
   end.
-Definition chk_m2g_year (h : Z) : bool :=
-  forallb (fun m => forallb (chk_m2g h m) (zrange 1 (Z.to_nat (islamic_mlen h m)))) (zrange 1 12).
-
-Definition chk_g2m (y m d : Z) : bool :=
-  match g2m y m d with
-  | VTuple [VInt h; VInt mi; VInt di] => islamic_valid h mi di && (islamic_jdn h mi di =? jdn y m d)
-  | _ => false
+(* the civil date denoted by a result tuple *)
+Definition civil_of (v : fval) : option (Z * Z * Z) :=
+  match v with
+  | VTuple [VInt y; VInt m; dv] =>
+      match as_Z dv with Some d => Some (y, m, d) | None => None end
+  | _ => None
   end.
-Definition chk_g2m_year (y : Z) : bool :=
-  forallb (fun m => forallb (fun d => if valid y m d && (islamic_epoch <=? jdn y m d) then chk_g2m y m d else true)
-                            (zrange 1 (Z.to_nat (mlen y m)))) (zrange 1 12).
+
+Definition chk_moslem (h m d : Z) : bool :=
+  let r := m2g h m d in
+  match civil_of r with
+  | Some (y, mo, da) =>
+      valid y mo da && (jdn y mo da =? islamic_jdn h m d)
+      && val_eqb (g2m y mo da) (tuple3 h m d)
+      && (match r with
+          | VTuple [_; _; VInt _] => true      (* then g2m_of r is the call just checked *)
+          | _ => val_eqb (g2m_of r) (tuple3 h m d)
+          end)
+  | None => false
+  end.
+Definition chk_moslem_year (h : Z) : bool :=
+  forallb (fun m => forallb (chk_moslem h m) (zrange 1 (Z.to_nat (islamic_mlen h m)))) (zrange 1 12).
+
+(* Julian Day Number of the civil date denoted by a result tuple, if it is a date of the calendar *)
+Definition civil_jdn (v : fval) : option Z :=
+  match civil_of v with
+  | Some (y, m, d) => if valid y m d then Some (jdn y m d) else None
+  | None => None
+  end.
+
+(* last day of AH 2500 (30 Dhu al-Hijja, a leap year) = 7 February 3048 *)
+Definition last_day : Z := 2834356.
+Example last_day_islamic : islamic_jdn 2500 12 30 = last_day. Proof. reflexivity. Qed.
+Example last_day_civil : jdn 3048 2 7 = last_day. Proof. reflexivity. Qed.
